@@ -42,7 +42,10 @@ impl Clock for RealTimeClock {
 pub struct GenericTokenBucket(TokenCount);
 
 impl GenericTokenBucket {
-    const MAX_TOKENS: u32 = 100;
+    /* Must be at least the smallest amount that is ever charged (200, see should_ratelimit),
+     * or nothing can ever be sent.
+     */
+    const MAX_TOKENS: u32 = 1000;
     const TOKENS_PER_SECOND: u32 = 2;
 
     pub const fn new() -> Self {
